@@ -807,6 +807,66 @@ def handleSerial : List String → Option String
   | _ => none
 
 
+/-! ### `marginals`: per-deme / per-locus observables (PGModel/Marginals.lean) -/
+
+/-- `marginals <demes|loci> <th|tbl> <T> [variant [a b]]` on the current space: the assembly of
+`dist.demes` / `dist.loci` (`PGModel/Marginals.lean`) over the model's raw moments at end time `T`:
+`total <mean> <var> | means … | vars … | cov row ; row … | corr row ; row … | getcov … | getcorr …`
+(`cov[i][j] = get_cov(j, i)`, `getcov[i][j] = get_cov(i, j)`; `corr` / `getcorr` with `sqrtFix`; a value or the
+name of the exception).  With two part indices `a b` (any naturals):
+`getcov <get_cov(a, b)> getcorr <get_corr(a, b)> sub <sub[a]>`, each a value or the name of the exception. -/
+def handleMarginals (c : Ctx) : List String → Option String
+  | kind :: base :: t :: rest => do
+    let k ← (match kind with | "demes" => some Marginals.Kind.demes | "loci" => some .loci | _ => none)
+    let r ← (match base with | "th" => some Reward.treeHeight | "tbl" => some .totalBranchLength | _ => none)
+    let T ← parseRat? t
+    let v ← (match rest.head? with
+      | none | some "current" => some Marginals.Variant.current
+      | some "locusDiagJointVar" => some .locusDiagJointVar
+      | some "locusCorrOneAtR0" => some .locusCorrOneAtR0
+      | some "demeCovNoPermute" => some .demeCovNoPermute
+      | _ => none)
+    let pair ← (match rest.drop 1 with
+      | [] => some none
+      | [a, b] => match a.toNat?, b.toNat? with
+        | some a, some b => some (some (a, b))
+        | _, _ => none
+      | _ => none)
+    let d : Marginals.Dist := { reward := r, nDemes := c.nVec.length, nLoci := c.nLoci,
+                                recRate := (c.epochsP.head?.map (·.recRate)).getD 0 }
+    -- every tuple the assembly can ask for, evaluated once (the model of `functools.cache` on `_accumulate`)
+    let idxs := match pair with
+      | some (a, b) => (if a = b then [a] else [a, b]).filter (· < d.size k)
+      | none => List.range (d.size k)
+    let subs := idxs.map (Marginals.subReward r k)
+    let keys := [[r], [r, r]] ++ subs.map (fun x => [x]) ++ subs.flatMap fun x => subs.map fun y => [x, y]
+    let table := keys.map fun key => (key, c.rawAccum [T] key 0)
+    let raw : List Reward → Rat := fun key => match table.lookup key with
+      | some q => q
+      | none => c.rawAccum [T] key 0
+    let showErr : Marginals.Err → String
+      | .valueError => "ValueError" | .keyError => "KeyError" | .zeroDivision => "ZeroDivisionError"
+    let showMat : Except Marginals.Err (List (List Rat)) → String
+      | .ok m => " ; ".intercalate (m.map fun row => " ".intercalate (row.map showRat))
+      | .error e => showErr e
+    let showVal : Except Marginals.Err Rat → String
+      | .ok q => showRat q
+      | .error e => showErr e
+    if let some (a, b) := pair then
+      let ops := Marginals.ratOps Marginals.sqrtFix
+      return s!"getcov {showVal (Marginals.getCov v d raw k a b)} getcorr {showVal (Marginals.getCorr ops v d raw k a b)}"
+        ++ s!" sub {showVal ((Marginals.marg? d k a).map fun _ => Marginals.margMean raw r k a)}"
+    return s!"total {showRat (Marginals.distMean raw r)} {showRat (Marginals.distVar raw r)}"
+      ++ " | means " ++ " ".intercalate ((Marginals.meanVector d raw k).map showRat)
+      ++ " | vars " ++ " ".intercalate ((Marginals.varVector d raw k).map showRat)
+      ++ " | cov " ++ showMat (Marginals.covMatrix v d raw k)
+      ++ " | corr " ++ showMat (Marginals.corrMatrix (Marginals.ratOps Marginals.sqrtFix) v d raw k)
+      ++ " | getcov " ++ " ; ".intercalate (idxs.map fun a => " ".intercalate (idxs.map fun b =>
+          showVal (Marginals.getCov v d raw k a b)))
+      ++ " | getcorr " ++ " ; ".intercalate (idxs.map fun a => " ".intercalate (idxs.map fun b =>
+          showVal (Marginals.getCorr (Marginals.ratOps Marginals.sqrtFix) v d raw k a b)))
+  | _ => none
+
 def handle (c : Ctx) (line : String) : Ctx × String :=
   let toks := (line.trimAscii.toString.splitOn " ").filter (· != "")
   let bad := (c, "bad-request")
@@ -1020,6 +1080,7 @@ def handle (c : Ctx) (line : String) : Ctx × String :=
   | "memo" :: toks => (c, (handleMemo toks).getD "bad-request")
   | "share" :: toks => (c, (handleShare toks).getD "bad-request")
   | "serial" :: toks => (c, (handleSerial toks).getD "bad-request")
+  | "marginals" :: toks => (c, (handleMarginals c toks).getD "bad-request")
   | ["selftest"] =>
     -- exp of a nilpotent matrix is exact; exp(A)·exp(A) = exp(2A); rows of exp(Q) sum to one
     let nil := FMat.ofFn 3 fun i j => if j = i + 1 then 1 else 0
